@@ -9,7 +9,7 @@ import Liquid.MapOrder
 
 Each body follows `filters/standard_filters.go`, `filters/sort_filters.go`, `values/sort.go`
 *after* the repairs in `fixes/` (`D4-uniq-nil`, `uniq-uncomparable-values`, `D4-sort-natural`,
-`sort-key-defined-string-type`, `array-nil-element`, `drops-in-arrays`). (`size` is in `Num.lean`.)
+`sort-key-defined-string-type`, `array-nil-element`, `drops-in-arrays`, `sort-key-drops`). (`size` is in `Num.lean`.)
 
 A body receives its arguments after `values.Call`: the receiver is always a `[]any`
 (`GoVal.slice .any xs`) — `Convert.lean` turned typed slices, fixed arrays, ranges, maps (values in
@@ -244,11 +244,12 @@ def sortLe (a b : GoVal) : Bool := !lessB b a
 def sortF (xs : List GoVal) : List GoVal :=
   if xs.length ≤ maxInsertion then insertionSort lessB xs else xs.mergeSort sortLe
 
-/-- `index(i)` of `sortableByProperty.Less`: the entry of a map with string keys, else nil -/
+/-- `index(i)` of `sortableByProperty.Less`: the entry of a map with string keys — through `ToLiquid`
+(`fixes/sort-key-drops`: an entry that is a drop yielding nil is nil for the nil test that follows) —, else nil -/
 def keyIndex (key : Bytes) (x : GoVal) : GoVal :=
   match x.toLiquid with
-  | .map .str _ kvs => (GoVal.mapFind kvs (.str key)).getD .nil
-  | .keyedMap fs => (GoVal.lookupFields fs key).getD .nil
+  | .map .str _ kvs => ((GoVal.mapFind kvs (.str key)).getD .nil).toLiquid
+  | .keyedMap fs => ((GoVal.lookupFields fs key).getD .nil).toLiquid
   | _ => .nil
 
 /-- `sortableByProperty.Less` with `nilFirst = true` -/
@@ -338,7 +339,7 @@ def sortWith (strict : Bool) : List GoVal → R GoVal
     (sortM xs).bind fun ys =>
     if strict && !stableEnough sortLe ys then tieOrder else .ok (.slice .any ys)
   | [.slice .any xs, key] =>
-    (sprint key).bind fun k =>
+    (sprintR key).bind fun k =>          -- `fmt.Sprint(values.ResolveDrops(key))` (`fixes/sort-key-drops`)
     (sortByM k xs).bind fun ys =>
     if strict && !stableEnough (sortByLe k) ys then tieOrder else .ok (.slice .any ys)
   | _ => badArgs
@@ -408,7 +409,7 @@ def sortNaturalWith (strict : Bool) : List GoVal → R GoVal
   | [.slice .any xs, key] =>
     let keyFn : R (GoVal → R Bytes) := match key with
       | .nil => .ok natKey
-      | k => (sprint k).bind fun name => .ok (natKeyBy name)
+      | k => (sprintR k).bind fun name => .ok (natKeyBy name)   -- `fmt.Sprint(values.ResolveDrops(key))`
     keyFn.bind fun f => (sortNatM strict f xs).bind fun ys => .ok (.slice .any ys)
   | _ => badArgs
 
@@ -468,11 +469,11 @@ def runSortc (table : List (Bytes × FilterImpl)) (name : Bytes) (recv : GoVal) 
       if name == bn "sort" then
         match key with
         | .nil => .ok (ys.map canonKey)
-        | k => (sprint k.toLiquid).bind fun nm => .ok (ys.map fun y => canonKey (keyIndex nm y))
+        | k => (sprintR k.toLiquid).bind fun nm => .ok (ys.map fun y => canonKey (keyIndex nm y))
       else
         match key with
         | .nil => textKeys natKey ys
-        | k => (sprint k.toLiquid).bind fun nm => textKeys (natKeyBy nm) ys
+        | k => (sprintR k.toLiquid).bind fun nm => textKeys (natKeyBy nm) ys
     match keys with
     | .ok ks => canonForm ks ys
     | .err c => "err " ++ c.kind
